@@ -1063,9 +1063,8 @@ func (r *Runtime) typedArrayProto_set(call FunctionCall) Value {
 			}
 			for i := 0; i < srcLen; i++ {
 				val := nilSafe(srcObj.self.getIdx(valueInt(i), nil))
-				if ta.isValidIntegerIndex(targetOffset + i) {
-					ta.typedArray.set(ta.offset+targetOffset+i, val)
-				}
+				// converts the value first (which may run user code), then re-validates the index
+				ta._putIdx(targetOffset+i, val)
 			}
 		}
 		return _undefined
